@@ -69,6 +69,7 @@ RULE_TITLES = {
     'R39': 'record header fields',
     'R40': 'renderers read an action key only from actions that carry it',
     'R41': 'renderers take figures from the record, never from the live election, and do not modify the record',
+    'R42b': 'dump and report render every recorded action (the whole list, one output per action)',
     'R42': 'dump rows have the header column count; every action yields a row/line',
     'R43': 'record key typestate under interruption',
     'R44': 'the action list is only appended to, by ElectionRecord.action, and the action is complete when appended',
@@ -80,6 +81,8 @@ RULE_TITLES = {
     'R50': 'stored integers of values are written only in freshly built objects (values are immutable)',
     'R51': 'no unbound local or free variable on the count path',
     'R52': 'optional source / comment strings are read whenever a quoted token follows',
+    'R54': 'QPQ: an election by quotient re-weights the winner\'s ballots before the next action is recorded',
+    'R53': 'every attribute read from the rule object outside the rules exists for every registered rule class',
 }
 
 
@@ -110,7 +113,7 @@ prop('C01',
       ('R38', rr.r38_first_and_last_action), ('R51', nm.r51_no_unbound_names), ('R28', ps.r28_strip_complete),
       # R13: the quota form is what keeps seats+1 candidates from all reaching the quota (more winners than seats);
       # R18: a sure-loser batch holds only candidates that cannot be elected (mpls caps it with the write-ins counted in, see F2(i))
-      ('R13', qt.r13_quota), ('R18', ti.r18_sure_loser_strict), ('R12', mk.r12_iteration_exits)],
+      ('R13', qt.r13_quota), ('R18', ti.r18_sure_loser_strict), ('R12', mk.r12_iteration_exits), ('R53', nm.r53_rule_interface)],
      'Static analysis of /repo source over the count() of every registered rule class (CFG path rules with a small '
      'path-sensitive fact domain, candidate-derivation dataflow): every path to the end of count() completes a total '
      'elect-or-defeat sweep; every elect site is justified by a quota test, a seat guard or a pending receiver; every batch '
@@ -135,7 +138,7 @@ prop('C20',
       'callers that reuse one Options object across elections (outside the property\'s protocol)'])
 prop('C19',
      [('R43', it.r43_key_typestate), ('R44', it.r44_append_only), ('R45', it.r45_nothing_swallows),
-      ('R46', it.r46_interrupt_plumbing)],
+      ('R46', it.r46_interrupt_plumbing), ('R37', rr.r37_status_changes_logged), ('R42b', rr.r42b_every_action_rendered)],
      'Static analysis of /repo source: the renderers never subscript a record key that may not be stored yet '
      '(typestate of the lazily filled header); the action list is append-only and an action is appended complete, so '
      'what is rendered is a prefix; no handler in the package can swallow a KeyboardInterrupt; the driver catches it '
@@ -156,7 +159,7 @@ prop('C17',
 prop('C18',
      [('R37', rr.r37_status_changes_logged), ('R38', rr.r38_first_and_last_action), ('R39', rr.r39_tag_agreement),
       ('R40', rr.r40_action_key_flow), ('R41', rr.r41_renderers_read_record), ('R42', rr.r42_dump_arity),
-      ('R03', bt.r03_duplicates), ('R05', cf.r05_status_ownership), ('R44', it.r44_append_only)],
+      ('R03', bt.r03_duplicates), ('R05', cf.r05_status_ownership), ('R44', it.r44_append_only), ('R53', nm.r53_rule_interface)],
      'Static analysis of /repo source: elect/defeat log themselves on every path; the first recorded action of every rule '
      'is begin/count/round and the end action is followed directly by the result assignment; tags agree between emitters, '
      'recorder and renderers; renderers and rule hooks read only action keys that the recorder stores for that kind of '
@@ -169,7 +172,7 @@ prop('C18',
      ['textual agreement of report/dump/JSON figures (they print str() of the same stored object)'])
 prop('C15',
      [('R26', ps.r26_cid_sanitiser), ('R26d', ps.r26d_tokenizer_precedence), ('R27', ps.r27_typecode_capacity), ('R28', ps.r28_strip_complete),
-      ('R29', ps.r29_ballot_count_pairing), ('R30', ps.r30_validation), ('R52', ps.r52_optional_tail), ('R15', ti.r15_tie_funnel)],
+      ('R29', ps.r29_ballot_count_pairing), ('R30', ps.r30_validation), ('R52', ps.r52_optional_tail), ('R15', ti.r15_tie_funnel), ('R48', gs.r48_no_global_writer)],
      'Static analysis of droop/profile.py: every candidate ID that enters a set, an order, a name table or a ranking '
      'flows (reaching definitions) from getCid or a 1..nCand range; the ranking array item type can hold every valid ID '
      'of its branch; the withdrawn strip tests every element; nBallots grows exactly on the paths that keep a line; the '
@@ -180,7 +183,7 @@ prop('C15',
 
 prop('C16',
      [('R31', ps.r31_exception_escape), ('R32', ps.r32_loops_consume), ('R26', ps.r26_cid_sanitiser),
-      ('R27', ps.r27_typecode_capacity), ('R33', ps.r33_cli_handlers), ('R30', ps.r30_validation)],
+      ('R27', ps.r27_typecode_capacity), ('R33', ps.r33_cli_handlers), ('R30', ps.r30_validation), ('R53', nm.r53_rule_interface)],
      'Static analysis of droop/profile.py and Droop.py: every partial operation reachable from ElectionProfile(data=...) '
      '(next, int, subscripts, local-name loads incl. exception edges, %-formatting, list.remove, array construction, raise) '
      'is discharged, so the escape set is {ElectionProfileError}; every parser loop consumes a token per iteration; accepted '
@@ -190,7 +193,7 @@ prop('C16',
       'in-range IDs only (R26, R27)', 'CLI handler exhaustiveness (R33)'],
      ['"satisfies the invariants of a valid election" beyond R26-R30', 'MemoryError / RecursionError (resource exhaustion)'])
 prop('C12',
-     [('R21', va.r21_scale_rounding), ('R22', va.r22_closure)],
+     [('R21', va.r21_scale_rounding), ('R22', va.r22_closure), ('R47', gs.r47_definite_reset)],
      'Abstract interpretation of the method bodies of Fixed (and Guarded) over the domain (scale dimension, number of '
      'rounding steps, operand form): every store to a stored integer has the dimension of a value; each operator and '
      'classmethod computes exactly the form the property prescribes (add/sub/neg/abs/x int exact; * / mul div muldiv one '
@@ -201,7 +204,7 @@ prop('C12',
      ['nothing of the algebra beyond trust in CPython int/divmod and fractions.Fraction'])
 
 prop('C13',
-     [('R23', va.r23_comparisons), ('R21', va.r21_scale_rounding), ('R24', va.r24_guard0_equivalence), ('R25', va.r25_printing)],
+     [('R23', va.r23_comparisons), ('R21', va.r21_scale_rounding), ('R24', va.r24_guard0_equivalence), ('R25', va.r25_printing), ('R47', gs.r47_definite_reset)],
      'Static analysis of droop/values/guarded.py: the six comparisons are projections of one three-valued __cmp__ that '
      'returns 0 exactly under |a-b| < 10^guard // 2 (at least 1) and otherwise the sign of the stored difference '
      '(trichotomy follows); the guard == 0 summaries of every Guarded operation equal the Fixed summaries, operation by '
@@ -241,7 +244,7 @@ prop('C11',
      ['equality of winners/tallies under renumbering and record equality with the candidate deleted (metamorphic, two runs)'])
 prop('C06',
      [('R00', cf.r00_helper_semantics), ('R07', gr.r07_transfer_once), ('R08', gr.r08_reset_pairing), ('R09', gr.r09_reweighting), ('R21', va.r21_scale_rounding),
-      ('R13', qt.r13_quota), ('R20', gr.r20_order_free_loops)],   # R13: a surplus is non-negative only if the election test implies tally >= quota in the arithmetic's own order
+      ('R13', qt.r13_quota), ('R20', gr.r20_order_free_loops), ('R22', va.r22_closure)],   # R13: a surplus is non-negative only if the election test implies tally >= quota in the arithmetic's own order
      'Static analysis of the five Gregory-family rules: transfer() credits every ballot exactly once (candidate or '
      'non-transferable total) and walks to the next continuing candidate; tallies are written only by the first count, '
      'transfer() and the two resets, each reset preceded by the transfer of every ballot standing to that candidate; ballot '
@@ -264,7 +267,7 @@ prop('C10',
      ['equality of whole records under re-presentation (metamorphic)', 'tokenizer layout/comment/nickname behaviour'])
 prop('C08',
      [('R00', cf.r00_helper_semantics), ('R10', mk.r10_residual_pairing), ('R10c', mk.r10c_keep_split), ('R11', mk.r11_keep_factors), ('R12', mk.r12_iteration_exits),
-      ('R14', qt.r14_elect_before_exclude), ('R04', lp.r04_loops), ('R21', va.r21_scale_rounding), ('R29', ps.r29_ballot_count_pairing), ('R19', gr.r19_multiplier_last), ('R20', gr.r20_order_free_loops)],
+      ('R14', qt.r14_elect_before_exclude), ('R04', lp.r04_loops), ('R21', va.r21_scale_rounding), ('R29', ps.r29_ballot_count_pairing), ('R19', gr.r19_multiplier_last), ('R20', gr.r20_order_free_loops), ('R22', va.r22_closure)],
      'Static analysis of meek.py and meek_prf.py: in every block of the distribution loops the expressions credited to a '
      'tally are exactly those debited from the ballot residual, residuals start at the multiplier and are summed once per '
      'ballot, tallies and the round residual are zeroed first (with exact add/sub, R21, votes + residual = ballots); keep '
@@ -290,7 +293,7 @@ prop('C04',
 
 prop('C02',
      [('R00', cf.r00_helper_semantics), ('R07', gr.r07_transfer_once), ('R08', gr.r08_reset_pairing), ('R09', gr.r09_reweighting), ('R10', mk.r10_residual_pairing), ('R10b', mk.r10b_redistribute_before_record), ('R10c', mk.r10c_keep_split), ('R29', ps.r29_ballot_count_pairing),
-      ('R19', gr.r19_multiplier_last), ('R21', va.r21_scale_rounding), ('R22', va.r22_closure), ('R37', rr.r37_status_changes_logged), ('R20', gr.r20_order_free_loops)],
+      ('R19', gr.r19_multiplier_last), ('R21', va.r21_scale_rounding), ('R22', va.r22_closure), ('R37', rr.r37_status_changes_logged), ('R20', gr.r20_order_free_loops), ('R54', gr.r54_qpq_reweight)],
      'Static analysis of the bookkeeping shape that conservation rests on: a transferred ballot is credited exactly once '
      '(candidate or non-transferable total); a tally is reset only after all its ballots were passed on; transfer values '
      'are old x surplus / tally rounded down (a transfer cannot create votes); Meek credits and residual debits are the same '
